@@ -57,7 +57,7 @@ LABEL_NAMES = ["class", "let", "static", "enum", "await", "arguments", "eval", "
                "typeof", "void", "with", "yield", "super", "throw", "try", "catch", "do", "while", "in", "function"]
 # names the generated helper code uses; never handed out as variable names
 HELPERS = {"at", "ix", "tr", "pg", "ps", "cnd", "cnq", "cl", "push", "runfs", "two", "h3", "P", "S", "T", "arr", "mp", "sv", "sl",
-           "fs", "tv", "main", "r"}
+           "fs", "tv", "main", "r", "myInt", "idxs", "mkP", "pint", "sb", "ip", "sp", "any"}
 
 
 class Gen:
@@ -110,11 +110,24 @@ class Gen:
                                  0 if simple else (1 if r.random() < 0.7 else 0)])
         if k == "opassign":
             lv = r.choice([0, 1, 2, 3, 4, 5, 5, 6])
-            op = r.choice([0, 0, 1, 4]) if lv == 6 else r.choice([0, 0, 1, 2, 3, 4])
+            op = r.choice([0, 1, 4, 5, 6, 7, 8, 9, 10, 11, 12]) if lv == 6 else r.choice(list(range(13)) + [0, 2, 3])
+            # wrappers around the side-effecting operands of the lvalue (GV.Desugar.idxOperand / baseOperand)
+            wi = r.randrange(0, 14) if lv in (0, 2, 3, 4, 5) and r.random() < 0.7 else 0
+            if wi == 13 and lv == 2:
+                wi = 12          # a map[int]int key must be an int
+            wb = 0
+            if lv == 1 and r.random() < 0.6:
+                wb = r.randrange(1, 4)
+            if lv == 5 and r.random() < 0.6:
+                wb = r.randrange(1, 5)
             self.count("opassign:lv%d" % lv)
-            self.count("opassign:op%d" % op)
+            self.count("opassign:op%s" % OPNAMES[op])
+            if lv != 6:
+                self.count("opassign:index-wrapper:%s" % WI_NAMES[wi] if lv != 1 else "opassign:base-wrapper:%s" % WB_NAMES[wb])
+                if lv == 5:
+                    self.count("opassign:base-wrapper:%s" % WB_NAMES[wb])
             x = self.dstvar() if lv == 6 else self.anyvar(cells=False)
-            return self.add_act([1, lv, x, op, self.anyvar(), 0])
+            return self.add_act([1, lv, x, op, self.anyvar(), wi + 16 * wb])
         if k == "swap":
             return self.add_act([2, r.randrange(0, 4), self.anyvar(cells=False), self.anyvar(cells=False), 0, 0])
         if k == "rotate":
@@ -475,10 +488,25 @@ func runfs(id int) {
 type T struct{ pad int }
 
 var tv T
+
+type myInt int
+type ip *int
+type sp *S
+
+var idxs = [4]int{0, 1, 2, 3}
+
+func mkP(a int) P { return P{a, 0} }
+func pint(x int) *int { v := x; return &v }
+func sb(j int) string { return string(rune(j)) }
 """
 
 CELLS = ["arr[%d]", "mp[%d]", "sv.x[%d]", "sl[%d]"]
 OPS = {0: "+=", 1: "-="}
+OPNAMES = ["+=", "-=", "++", "--", "%=", "*=", "/=", "|=", "&=", "^=", "&^=", ">>=", "<<="]
+WI_NAMES = ["call", "numeric-conversion", "named-conversion", "parens", "unary", "binary", "index-of-index+conversion",
+            "type-assertion", "func-literal-called", "composite-literal", "selector-of-call", "deref-of-call",
+            "conversion-of-index-of-slice-conversion", "index-of-slice-conversion"]
+WB_NAMES = ["call", "parens", "pointer-conversion", "named-pointer-conversion", "deref-of-call"]
 
 
 class Render:
@@ -515,16 +543,28 @@ class Render:
             return ls
         if kind == 1:
             lv, x, op, y = a, b, c, d
-            i = "ix(%d, %s)" % (aid, vn(x))
-            lhs = ["arr[%s]" % i, "*pg(%d, %s)" % (aid, vn(x)), "mp[%s]" % i, "sv.x[%s]" % i, "sl[%s]" % i,
-                   "ps(%d).x[%s]" % (aid, i), vn(x)][lv]
+            wi, wb = e % 16, e // 16
+            call = "ix(%d, %s)" % (aid, vn(x))
+            i = [call, "int(uint8(%s))" % call, "int(myInt(%s))" % call, "(%s)" % call, "-(-%s)" % call, "%s&3" % call,
+                 "idxs[uint8(%s)]" % call, "any(%s).(int)" % call, "func() int { return %s }()" % call,
+                 "[1]int{%s}[0]" % call, "mkP(%s).a" % call, "*pint(%s)" % call, "int([]byte(sb(%s))[0])" % call,
+                 "[]byte(sb(%s))[0]" % call][wi]
+            pgc = "pg(%d, %s)" % (aid, vn(x))
+            ptr = [pgc, "(%s)" % pgc, "(*int)(%s)" % pgc, "(*int)(ip(%s))" % pgc][wb] if lv == 1 else None
+            psc = "ps(%d)" % aid
+            base = [psc, "(%s)" % psc, "(*S)(%s)" % psc, "(*S)(sp(%s))" % psc, "(*%s)" % psc][wb] if lv == 5 else None
+            lhs = ["arr[%s]" % i, "*%s" % ptr, "mp[%s]" % i, "sv.x[%s]" % i, "sl[%s]" % i,
+                   "%s.x[%s]" % (base, i), vn(x)][lv]
+            t = "tr(%d, %s)" % (aid, vn(y))
             if op in OPS:
-                return ["%s %s tr(%d, %s)" % (lhs, OPS[op], aid, vn(y))]
+                return ["%s %s %s" % (lhs, OPS[op], t)]
             if op == 2:
                 return [lhs + "++"]
             if op == 3:
                 return [lhs + "--"]
-            return ["%s %%= tr(%d, %s)&7 + 1" % (lhs, aid, vn(y))]
+            rhs = {4: "%s&7 + 1", 5: "(%s&1)*2 - 1", 6: "%s&3 + 1", 7: "%s&1023", 8: "%s&1023", 9: "%s&1023", 10: "%s&1023",
+                   11: "uint(%s&3)", 12: "uint(%s&0)"}[op] % t
+            return ["%s %s %s" % (lhs, OPNAMES[op], rhs)]
         if kind == 2:
             cell = ["arr[%s]", "mp[%s]", "sv.x[%s]", "sl[%s]"][a]
             i, j = "%s&3" % vn(b), "%s&3" % vn(c)
@@ -552,6 +592,11 @@ class Render:
             return ["{ %s := %s + 1; { %s := %s * 2; { %s := %s + %d; { %s := %s %% 1009; %s = at(%d, %s) } } } }" % (
                 n, n, n, n, n, n, k, n, n, vn(dst), aid, n), 'println("a", %d, %s)' % (aid, vn(dst))]
         raise AssertionError(kind)
+
+    def act_lines_for(self, fi, aid):
+        self.names = self.g.fns[fi]["names"]
+        self.labels = self.g.fns[fi]["labels"]
+        return "; ".join(self.act_lines(aid))
 
     def call_stmt(self, cid):
         c = self.g.calls[cid]
@@ -1009,13 +1054,13 @@ def program_batch(chk, gens, label, scratch, skeleton=True):
 _DS_CACHE = {}
 
 
-def ds_model(lv, incdec):
-    key = (lv, incdec)
+def ds_model(lv, wi, wb, incdec):
+    key = (lv, wi, wb, incdec)
     if key not in _DS_CACHE:
-        a = C.run_driver("C01", ["c01 ds %d %s" % (lv, "incdec" if incdec else "op")])[0]
+        a = C.run_driver("C01", ["c01 ds %d %d %d %s" % (lv, wi, wb, "incdec" if incdec else "op")])[0]
         names, once = a.split(" ")
         if once != "once=true":
-            raise RuntimeError("Desugar model: rhs not evaluated exactly once: " + a)
+            raise RuntimeError("Desugar model: an opaque operand of the lvalue is not hoisted exactly once: " + a)
         _DS_CACHE[key] = [] if names == "-" else names.split(",")
     return _DS_CACHE[key]
 
@@ -1052,15 +1097,17 @@ def check_tmps(chk, g, pid, fi, tmps, toks):
         if a[0] != 1 or aid in seen:
             continue
         seen.add(aid)
-        want = ds_model(a[1], a[3] in (2, 3))
+        want = ds_model(a[1], a[5] % 16, a[5] // 16, a[3] in (2, 3))
         got = tmps.get("a%d" % aid, [])
         # the same action may be emitted several times (post statement copied before `continue`, fallthrough bodies) or not
         # at all (post statement of a loop whose body never completes normally and has no `continue`)
         n = toks.count("a%d" % aid)
         chk.add_case("desugar-temps", "%s a%d lv%d op%d" % (pid, aid, a[1], a[3]), nontrivial=bool(want), kindkey="desugar-temps")
         if got != want * n:
-            chk.add_tie_break("desugar-temps", "%s F%d action %d lv=%d op=%d emitted %d time(s)" % (pid, fi, aid, a[1], a[3], n),
-                              ",".join(got), ",".join(want))
+            chk.add_tie_break("desugar-temps", json.dumps({"id": pid, "fn": fi, "action": aid, "lv": a[1], "op": OPNAMES[a[3]],
+                                                           "index_wrapper": WI_NAMES[a[5] % 16], "base_wrapper": WB_NAMES[a[5] // 16],
+                                                           "emitted": n, "statement": Render(g).act_lines_for(fi, aid)}),
+                              ",".join(got) or "(no temporary)", ",".join(want) or "(no temporary)")
 
 
 # --------------------------------------------------------------------------------------
